@@ -33,7 +33,8 @@ Definition answer_exec (log : list entry) (ltx : option nat) (q : request) : res
 Definition answer_run (log : list entry) (ltx : option nat) (q : request) : response :=
   if N.eqb (rq_ik q) 0 then answer_exec log ltx q
   else match find_by_ik log (rq_ik q) with
-       | Some e => if same_kind (e_kind e) (rq_kind q) then ROk (e_txid e) else RErr EKindMismatch
+       | Some e => if same_kind (e_kind e) (rq_kind q) then ROk (e_txid e)
+                   else if is_tx_kind (rq_kind q) then RErr EKindMismatch else ROk None
        | None => answer_exec log ltx q
        end.
 Definition answer (log : list entry) (ltx : option nat) (q : request) : response :=
